@@ -1,5 +1,6 @@
 """C07 — scopes, overload sets and declaration sets are mutually consistent."""
 import random
+import re
 from common import *
 import facts as factsmod
 
@@ -93,6 +94,14 @@ def oracle_hom(case, d):
         errs.append(("size", "size() = %s for %d members" % (d["size"], n)))
     if d["home"] != ("1" * n or "-"):
         errs.append(("home", "a member does not report its home region"))
+    if what in ("param", "enum") and "probes" in d:
+        # looked up right before and right after each declaration: found before iff the name was already declared, found after always
+        seen, want = set(), ""
+        for nm, _ in items:
+            want += ("1" if nm in seen else "0") + "1"
+            seen.add(nm)
+        if d["probes"] != (want or "-"):
+            errs.append(("lookup-interleaved", "looking a name up right before / right after its declaration: got %s, expected %s" % (d["probes"][:60], want[:60])))
     if what != "enum" and d["types"] != (",".join(str(t) for _, t in items) or "-"):
         errs.append(("type", "the type of the list is not the product of its members' types"))
     return errs
@@ -128,7 +137,8 @@ def check(res):
                 keys.add(key)
                 res.violation("oracle:" + key, what, {"case": c[:1500], "observed": {x: y[:300] for x, y in d.items()},
                                                       "rerun": "echo '<case>' | build/<hash>/asan/scope_driver"})
-        if not errs and i < len(ml) and ml[i] != o:
+        # the interleaved lookups ("probes") are judged by the oracle only; the extracted model does not produce them
+        if not errs and i < len(ml) and ml[i] != re.sub(r" probes=\S+", "", o):
             ndiff += 1
             if ndiff <= 3:
                 res.violation("diff", "model (Scope.v) and implementation disagree although the oracle is satisfied",
